@@ -33,7 +33,7 @@ TRUSTED = ["hand-written model Ebv.SlowCycle of SyncGroup.update_devices / SyncG
            "tied by exact correspondence of frames sent, device-visible values, wkc_errors, missed_counter",
            "harness/vh/props/c30.py simulated bus (independent frame parser, FMMU mappings as requested by the code), scripted "
            "wait_for/sleep/monotonic; counter positions, expected counts and variable offsets are taken from the real allocate()",
-           "layout hypothesis of the theorems (Ebv.C30.Layout) evaluated by the driver on the real allocate() result of every case"]
+           "layout hypothesis of the theorems (Ebv.SlowCycle.Layout) evaluated by the driver on the real allocate() result of every case"]
 ASSUMPTIONS = ["responses have the length of the frame sent and keep the packet index (a response with another index never "
                "reaches the group; a shorter one makes unpack_from raise)",
                "nothing but Device.update writes process variables between two cycles; a timeout means the frame is lost "
